@@ -522,6 +522,26 @@ theorem error_order_independent {f f' : Nat} {E E' : List Eqn} {S' : List Bind}
   have hden : Den (closeUnit S') E [] := ⟨fun e he => hs e ((hsame e).1 he), by simp [SolS]⟩
   rcases h with h | h <;> (rw [h] at hg; exact hg _ hden)
 
+/-- **C01, re-inference after decoding**: decoding merges nodes with equal identity roots, which
+only *adds* equations between type variables that already had equal types.  If the original typing
+`closeUnit S` (the least solution of the original constraints `E`) also solves the enlarged system
+`E'`, then inference on `E'` returns exactly the original types. -/
+theorem least_of_quotient {f f' : Nat} {E E' : List Eqn} {S S' : List Bind}
+    (hsub : ∀ e ∈ E, e ∈ E') (h : unify f E [] = .ok S) (h' : unify f' E' [] = .ok S')
+    (hsol : Sol (closeUnit S) E') : ∀ x, closeUnit S' x = closeUnit S x := by
+  intro x
+  apply Le.antisymm
+  · exact (unify_least f' E' S' h').2 (closeUnit S) hsol x
+  · exact least_mono hsub h' h x
+
+/-- and inference on the enlarged system cannot fail when the original typing solves it -/
+theorem quotient_accepts {f' : Nat} {E' : List Eqn} {ρ : Nat → Ty} (hsol : Sol ρ E')
+    (h : unify f' E' [] = .clash ∨ unify f' E' [] = .occurs) : False := by
+  have hg := unify_good f' E' []
+  have hden : Den ρ E' [] := ⟨hsol, by simp [SolS]⟩
+  rcases h with h | h <;> (rw [h] at hg; exact hg _ hden)
+
+#print axioms least_of_quotient
 #print axioms unify_good
 #print axioms unify_least
 #print axioms least_order_independent
